@@ -1,0 +1,31 @@
+//go:build verif
+
+// Contracts checked by /verif/gvc (contract-based deductive verification).
+// This file contains comments only; it is compiled only under the "verif" build tag.
+
+package redis
+
+// C09 / C04 — the redis-backed set of unacknowledged QoS 2 identifiers. The in-memory map is only a cache of what is
+// in the redis hash unack:<client id> (after a broker restart it is empty while the hash is not): whether an
+// identifier "already existed" is therefore what redis says — HSET replies 0 for a field that was already there —
+// unless the cache already knows it. Commands carry scalar arguments; the cache changes only after redis took the
+// command.
+//@ func getKey inline
+
+//@ func (*Store).Set
+//@ props C09 C04
+//@ requires [C09] s != nil && s.pool != nil && s.unackpublish != nil
+//@ modifies map(s.unackpublish), ghostall(redigo.Conn.$cmds), ghostall(redigo.Conn.$lastCmd), ghostall(redigo.Conn.$lastInt), ghostall(redigo.Conn.$flushes)
+//@ ensures [C09 C04] old(has(s.unackpublish, id)) ==> result0 && result1 == nil
+//@ ensures [C09 C04] !old(has(s.unackpublish, id)) && result1 == nil ==> result0 == (c.$lastInt == 0) && called(Conn.Do#1) == 1
+//@ ensures [C09] result1 == nil ==> has(s.unackpublish, id)
+//@ ensures [C09] result1 != nil ==> (forall k uint16 :: has(s.unackpublish, k) == old(has(s.unackpublish, k)))
+//@ call Conn.Do#1 assert [C09] commandName == "hset" && len(args) == 3 && args[0].(type string) && args[1].(type packets.PacketID) && args[1].(packets.PacketID) == id
+
+//@ func (*Store).Remove
+//@ props C09 C04
+//@ requires [C09] s != nil && s.pool != nil && s.unackpublish != nil
+//@ modifies map(s.unackpublish), ghostall(redigo.Conn.$cmds), ghostall(redigo.Conn.$lastCmd), ghostall(redigo.Conn.$lastInt), ghostall(redigo.Conn.$flushes)
+//@ ensures [C09] result == nil ==> !has(s.unackpublish, id) && called(Conn.Do#1) == 1
+//@ ensures [C09] result != nil ==> (forall k uint16 :: has(s.unackpublish, k) == old(has(s.unackpublish, k)))
+//@ call Conn.Do#1 assert [C09] commandName == "hdel" && len(args) == 2 && args[0].(type string) && args[1].(type packets.PacketID) && args[1].(packets.PacketID) == id
